@@ -100,6 +100,13 @@ def hermitian_configs(tier, hermitian=True):
     add(carrier="C", sizes=[2, 2], spectrum="sym", classes=[0, 0, 1, 2], terms=[[1]], max_order=3, fd=[0, 1])
     add(carrier="C", sizes=[1, 1, 2], spectrum="sym", terms=[[1]], max_order=2, fd=[2])
     add(carrier="C", sizes=[1, 2], spectrum=RAT_SPECTRA[3], terms=[[1, 0], [0, 1], [1, 1]], max_order=3, fd={"1": [[0, 1], [1, 0]]})
+    # dict mask on a NON-first block with a non-transitive kept pattern (only element (0,2) of a 3x3 block is eliminated)
+    add(carrier="C", sizes=[1, 3], spectrum=RAT_SPECTRA[4], terms=[[1]], max_order=3, fd={"1": [[0, 0, 1], [0, 0, 0], [1, 0, 0]]})
+    add(carrier="C", sizes=[1, 1, 3], spectrum=RAT_SPECTRA[5], terms=[[1]], max_order=3, fd={"2": [[0, 0, 1], [0, 0, 0], [1, 0, 0]]})
+    # degenerate level that is not adjacent / ascending in basis order
+    add(carrier="A", sizes=[3], spectrum=["2", "0", "2"], terms=[[1]], max_order=3)
+    add(carrier="A", sizes=[4], spectrum=["1", "0", "2", "0"], terms=[[1]], max_order=2)
+    add(carrier="C", sizes=[4], spectrum=["1", "0", "5", "0"], terms=[[1]], max_order=2)
     # an unperturbed block that is exactly zero (represented internally by a 0-d eigenvalue array), as row and as column block
     add(carrier="C", sizes=[2, 2], spectrum=["1", "3", "0", "0"], terms=[[1]], max_order=2)
     add(carrier="C", sizes=[2, 1], spectrum=["0", "0", "2"], terms=[[1]], max_order=3)
